@@ -11,26 +11,27 @@ from vf.oracle import partrules as R
 
 
 class MapRecorder:
-    """Records (input, ihmax, label map) of every native call, per thread (the monitor's own state
-    must not be shared between threads)."""
+    """Records (input, ihmax, label map) of every native call in one lock-protected list (calls may
+    come from dask worker threads; consumers pair them with positions by content)."""
 
     def __init__(self, specpart):
         import threading
         self.mod = specpart
         self.orig = specpart.partition
-        self.tls = threading.local()
+        self.lock = threading.Lock()
+        self.calls = []
         specpart.partition = self
 
     def __call__(self, spec, ihmax):
         L = self.orig(spec, ihmax)
-        if not hasattr(self.tls, "calls"):
-            self.tls.calls = []
-        self.tls.calls.append((np.array(spec, copy=True), int(ihmax), np.array(L, copy=True)))
+        item = (np.array(spec, copy=True), int(ihmax), np.array(L, copy=True))
+        with self.lock:
+            self.calls.append(item)
         return L
 
     def take(self):
-        c = getattr(self.tls, "calls", [])
-        self.tls.calls = []
+        with self.lock:
+            c, self.calls = self.calls, []
         return c
 
 
@@ -214,13 +215,15 @@ def accessor_level(ctx, rng, xr, pmod, mr, utils):
     wdir = xr.DataArray(rng.uniform(0, 360, sizes), dims=names, coords=co)
     dpt = xr.DataArray(10 ** rng.uniform(0.3, 3.5, sizes), dims=names, coords=co)
     agefac, wscut = float(rng.uniform(0.8, 2.2)), float(rng.choice([0.1, 0.3333, 0.6]))
-    key = "acc|%s|%s|lead=%s|nf=%d|nd=%d|req=%d" % (kind, dt, "+".join(names) or "none", len(f), len(th), req)
+    smooth = bool(rng.random() < 0.3) and len(f) >= 3 and len(th) >= 3
+    key = "acc|%s|%s|lead=%s|nf=%d|nd=%d|req=%d|smooth=%s" % (kind, dt, "+".join(names) or "none", len(f), len(th), req, smooth)
+    skw = dict(smooth=True, freq_window=3, dir_window=3) if smooth else {}
     mr.take()
     try:
         if kind == "ptm3":
-            r = da.spec.partition.ptm3(parts=req, ihmax=ihmax)
+            r = da.spec.partition.ptm3(parts=req, ihmax=ihmax, **skw)
         else:
-            r = getattr(da.spec.partition, kind)(wspd, wdir, dpt, agefac=agefac, wscut=wscut, swells=req, ihmax=ihmax)
+            r = getattr(da.spec.partition, kind)(wspd, wdir, dpt, agefac=agefac, wscut=wscut, swells=req, ihmax=ihmax, **skw)
         out = vals(r)
         rdims = list(r.dims)
     except Exception as e:
@@ -234,10 +237,13 @@ def accessor_level(ctx, rng, xr, pmod, mr, utils):
     if str(out.dtype) != "float32":
         rec.note("accessor_dtype_" + str(out.dtype))
     Ain = da.values.reshape(npos, len(f), len(th))
+    # with smooth=True the watershed boundaries come from the smoothed spectrum (the smoothing
+    # itself is C16's business) while the partition values must still be those of the raw one
+    Bnd = utils.smooth_spec(da, 3, 3).transpose(*names, "freq", "dir").values.reshape(npos, len(f), len(th)) if smooth else Ain
     outp = np.moveaxis(out.reshape((out.shape[0], npos, len(f), len(th))), 1, 0)
     # pair native calls with positions by content (vectorize may call once more to probe otypes)
     for p in range(npos):
-        s32 = np.ascontiguousarray(Ain[p].astype(np.float32))
+        s32 = np.ascontiguousarray(Bnd[p].astype(np.float32))
         match = [c for c in calls if c[1] == ihmax and c[0].shape == s32.shape and np.array_equal(c[0], s32)]
         if not match:
             rec.skip("acc_" + kind, "no recorded native call for this position")
